@@ -71,6 +71,12 @@ def cmdGreedy (a : Args) : String :=
   if a.get "path" == "additive" then
     let u := parseUtil a I P
     let score : Pid → Rat := fun p => sumOver (List.range P.length) (fun i => ((P[i]?.map Prod.snd).getD 0 : Nat) * u i p)
+    if a.get "details" == "1" then
+      match Greedy.additiveDetails score I init order with
+      | .error e => "err " ++ e.toString
+      | .ok ds => "ok " ++ (if ds.isEmpty then "-" else String.intercalate " " (ds.map (fun d =>
+          s!"{d.project};{match d.score with | some q => showRat q | none => "inf"};{match d.remaining with | some r => showRat r | none => "-"}")))
+    else
     showOutcome (Greedy.additive score I init order)
   else
     let tsat := totalSatFn a I P
